@@ -136,7 +136,9 @@ func main() {
 		r.HarnessError("extractor found only %d sites / %d kinds", len(x.Sites), len(kinds))
 	}
 	if len(x.Unres) > 0 || x.CacheUses != x.CacheUsesResolved {
-		r.HarnessError("extractor incomplete: %d CacheDB uses, %d resolved to a ConcatKey construction: %v", x.CacheUses, x.CacheUsesResolved, x.Unres)
+		// an unresolvable key construction DEGRADES the static part (it is listed, the run is no longer exhaustive);
+		// bound kinds are still exercised dynamically below
+		r.Capped(fmt.Sprintf("static key-schema extraction incomplete: %d unresolved key construction sites", len(x.Unres)))
 	}
 	for _, k := range kinds {
 		if strings.HasPrefix(k.Contract, "?") {
@@ -286,6 +288,7 @@ func main() {
 	}
 	validatedByBinding := map[string]bool{}
 	var bindingMismatch []string
+	var dynamicOnly []string // kinds bound by constant name whose construction the extractor can no longer see
 	// a record kind that is bound to a real helper by the NAME of its prefix constant must still be found by the
 	// extractor (a bound kind that silently disappears after a refactor is suspicious, not fine)
 	{
@@ -295,9 +298,10 @@ func main() {
 		}
 		for name := range bindings {
 			if !have[name] {
-				r.HarnessError("record kind bound by constant %s is no longer found by the extractor (key construction moved out of reach?)", name)
+				dynamicOnly = append(dynamicOnly, name)
 			}
 		}
+		sort.Strings(dynamicOnly)
 	}
 	nonLiteral := []map[string]any{}
 	var tuplesTried, tuplesRejected int
@@ -405,7 +409,64 @@ func main() {
 			bindingMismatch = append(bindingMismatch, k.ID())
 		}
 	}
+	// kinds bound by constant name that the extractor no longer finds (key built by an unresolvable helper): no static
+	// schema, so test what must hold whatever the layout is — the real helper must be INJECTIVE: two different
+	// parameter tuples (parameter classes = the helper's own signature) never write the same set of keys.
+	dynamicReport := []map[string]any{}
+	for _, name := range dynamicOnly {
+		b := bindings[name]
+		var shape []Seg
+		for i, n := range []int{8, 4, 20, 32} {
+			for j := 0; j < b.need[i]; j++ {
+				shape = append(shape, Seg{K: "fix", N: n})
+			}
+		}
+		for j := 0; j < b.need[4]; j++ {
+			shape = append(shape, Seg{K: "var"})
+		}
+		seen := map[string][][]byte{}
+		accepted, rejected := 0, 0
+		short := name[strings.LastIndex(name, "/")+1:]
+		for ti, params := range boundaryTuples(shape) {
+			a, err := mkArgs(shape, params, fmt.Sprint("t", ti))
+			if err != nil {
+				continue
+			}
+			sbx.reset()
+			tuplesTried++
+			r.Eval()
+			if err := b.put(sbx.ns, a); err != nil {
+				rejected++
+				continue
+			}
+			accepted++
+			var ks []string
+			for kk := range sbx.written() {
+				ks = append(ks, kk)
+			}
+			sort.Strings(ks)
+			sig := strings.Join(ks, "\x00|")
+			if prev, dup := seen[sig]; dup && fmt.Sprint(prev) != fmt.Sprint(params) {
+				r.Class("key-not-literal")
+				r.Violation("key-not-injective:"+short, map[string]any{"kind_bound_by_constant": name,
+					"params_hex": hexAll(prev), "other_params_hex": hexAll(params), "keys_written_hex": hexStrs(ks),
+					"parameter_classes": shapeStr(shape), "unresolved_key_sites": x.Unres,
+					"replay": "the real storage helper of this kind, called with params_hex and with other_params_hex (two different parameter tuples), writes exactly the same storage keys"})
+				break
+			}
+			seen[sig] = params
+		}
+		if accepted == 0 {
+			r.HarnessError("record kind bound by constant %s can neither be extracted statically nor exercised dynamically (%d tuples rejected)", name, rejected)
+		}
+		dynamicReport = append(dynamicReport, map[string]any{"kind_bound_by_constant": name, "tuples_accepted": accepted, "tuples_rejected": rejected, "distinct_key_sets": len(seen)})
+	}
 	sbx.close()
+	if x.Unres == nil {
+		x.Unres = []string{}
+	}
+	cov["unresolved_key_sites"] = x.Unres
+	cov["b_dynamic_only_kinds"] = dynamicReport
 	cov["b_literal_concatenation"] = map[string]any{"tuples_tried": tuplesTried, "tuples_rejected_by_helper": tuplesRejected,
 		"var_alphabet_lengths": []int{0, 1, 31, 32, 33, 64, 0xFD, 0x100}, "var_alphabet_extra": "leading 0x00 (32 bytes), all 0xFF (32 bytes)",
 		"fix_alphabet": "all 0x00, all 0xFF, LE 1, high bit only, pattern", "kinds_not_literal": bindingMismatch, "unconfirmed_non_literal": nonLiteral}
@@ -911,4 +972,12 @@ func boundaryTuples(p []Seg) [][][]byte {
 		out = next
 	}
 	return out
+}
+
+func shapeStr(p []Seg) string {
+	var s []string
+	for _, g := range p {
+		s = append(s, g.String())
+	}
+	return strings.Join(s, " ")
 }
